@@ -81,8 +81,12 @@ Definition param_items (dq : bool) (p : param) : list item :=
 Definition is_set (p : param) : bool :=
   if is_list_param p then negb (is_nil (elems_of p))
   else match scalar_of p with Some _ => true | None => false end.
+(** a list is null when what "$*" / "$@" would print is empty: two empty elements are NOT null
+    (they are joined by a blank), unless it is $* under an empty IFS *)
 Definition is_nonnull (p : param) : bool :=
-  if is_list_param p then existsb (fun s => negb (is_nil s)) (elems_of p)
+  if is_list_param p then
+    if is_star p then negb (is_nil (join_with star_joiner (elems_of p)))
+    else (2 <=? length (elems_of p))%nat || existsb (fun s => negb (is_nil s)) (elems_of p)
   else match scalar_of p with Some s => negb (is_nil s) | None => false end.
 Definition uses_param (colon : bool) (p : param) : bool :=
   if colon then is_nonnull p else is_set p.
